@@ -146,7 +146,8 @@ func runC08(w *World, r *Report, tier string) {
 			if !isRet {
 				return
 			}
-			if !isNilConst(rvI(rres(path, ret)[len(ret.Results)-1], len(path)-1)) {
+			// a path that can report success: the error returned is nil, or a call's error this path has not found non-nil
+			if certainError(w, resolveOn(rres(path, ret)[len(ret.Results)-1], len(path)-1, path), path) {
 				return
 			}
 			nOK++
@@ -156,18 +157,19 @@ func runC08(w *World, r *Report, tier string) {
 			if countOn(path, notLog) != 0 {
 				bad = "SendIQ writes directly besides calling Send"
 			}
-			for _, in := range path {
+			forPath(path, func(i int, in ssa.Instruction) {
 				if isSend(in) {
 					as := asCall(in).Common().Args
 					a := as[len(as)-1]
 					if mi, ok := a.(*ssa.MakeInterface); ok {
 						a = mi.X
 					}
-					if !isParamOf(rvAny(a), fn) {
+					// (a parameter captured by a function literal lives in memory and is read back)
+					if !isParamOf(rvAny(a), fn) && !isParamOf(resolveOn(a, i, path), fn) {
 						bad = "SendIQ sends something other than the iq it was given"
 					}
 				}
-			}
+			})
 		})
 		r.Check(bad == "" && nOK > 0, "R1", k, w.pos(fn.Pos()), bad, "exactly one Send(iq) on the success path")
 	}
